@@ -18,7 +18,7 @@ RULE = ("models from three sources: (a) read from generated Hy source over every
         "compound sub-form of the repository's own *.hy files. Non-trivial = the model contains an "
         "f-string, a bracket string or a sugar form; distinct by rendered case.")
 FLOOR = {"quick": 2000, "thorough": 2000}
-BUDGET = {"quick": 30, "thorough": 480}
+BUDGET = {"quick": 22, "thorough": 480}
 CASE_TIMEOUT = 20
 NEEDS_EVENTS = True
 ANCHORS = ["hy.core.hy_repr:hy_repr", "hy.core.hy_repr:_base_repr", "hy.core.hy_repr:_cat"]
@@ -149,10 +149,36 @@ def _n_spec_braces(ir):
     return G.map_ir(ir, f)
 
 
+def _numberlike(text):
+    t = text[:1] + text[1:].replace("_", "").replace(",", "")
+    for conv in (lambda x: int(x, 0), float, complex):
+        try:
+            conv(t)
+            return True
+        except ValueError:
+            pass
+    return False
+
+
+def _dotted_text(j):
+    kids = j["c"]
+    if kids[1]["v"] == "None":
+        return kids[0]["v"] + ".".join(k["v"] for k in kids[2:])
+    return ".".join(k["v"] for k in kids[1:])
+
+
+def _bad_dotted(j):
+    """A dotted-sugar expression whose dotted spelling is not a dotted identifier."""
+    return G.sugar_head(j) == "dotted" and (any(G.all_dots(c["v"]) for c in j["c"][1:])
+                                            or _numberlike(_dotted_text(j)))
+
+
 def _n_dots_part(ir):
     def f(j):
-        if G.sugar_head(j) == "dotted":
-            return dict(j, c=j["c"][:1] + [G.sym("d") if G.all_dots(c["v"]) else c for c in j["c"][1:]])
+        if _bad_dotted(j):
+            j = dict(j, c=j["c"][:1] + [G.sym("d") if G.all_dots(c["v"]) else c for c in j["c"][1:]])
+            if _numberlike(_dotted_text(j)):
+                j = dict(j, c=j["c"][:2] + [G.sym("s" + c["v"]) for c in j["c"][2:]])
         return j
     return G.map_ir(ir, f)
 
@@ -206,6 +232,81 @@ def _n_spec_escape(ir):
     return _spec_strings(ir, False, fix)
 
 
+def _fstr_strings(j, raw=False, fix=None, found=None):
+    """Literal and spec strings of non-bracket f-strings (where escapes are processed)."""
+    if j["t"] == "FStr":
+        raw = j.get("b") is not None
+    if "c" not in j:
+        return j
+    kids = []
+    for i, c in enumerate(j["c"]):
+        if c["t"] == "Str" and not raw and (j["t"] == "FStr" or (j["t"] == "FComp" and i >= 1)):
+            if found is not None:
+                found.append(c)
+            kids.append(fix(c) if fix else c)
+        else:
+            kids.append(_fstr_strings(c, raw, fix, found))
+    return dict(j, c=kids)
+
+
+def _has_bs_n_brace(ir):
+    found = []
+    _fstr_strings(ir, found=found)
+    return any("\\N{" in c["v"] for c in found)
+
+
+def _n_bs_n_brace(ir):
+    return _fstr_strings(ir, fix=lambda c: dict(c, v=c["v"].replace("\\N{", "\\M{")))
+
+
+def _at_dotted(j):
+    """(unquote X) where X is not a symbol but prints starting with '@' (a dotted form @a.b)."""
+    if j["t"] == "Expr" and len(j["c"]) == 2 and j["c"][0] == G.sym("unquote"):
+        x = j["c"][1]
+        if G.sugar_head(x) == "dotted":
+            first = x["c"][1] if x["c"][0]["v"] == "." and x["c"][1]["v"] != "None" else x["c"][0]
+            return first["v"].startswith("@")
+    return False
+
+
+def _n_at_dotted(ir):
+    def f(j):
+        if _at_dotted(j):
+            x = j["c"][1]
+            k = 1 if x["c"][0]["v"] == "." and x["c"][1]["v"] != "None" else 0
+            kids = list(x["c"])
+            kids[k] = G.sym("x" + kids[k]["v"])
+            return dict(j, c=[j["c"][0], dict(x, c=kids)])
+        return j
+    return G.map_ir(ir, f)
+
+
+def _spec_debug(j):
+    """A format spec holding the text of a nested `=` field: two adjacent Strings, or a String
+    with a '}' (neither can be spelled as plain spec text)."""
+    if j["t"] != "FComp":
+        return False
+    spec = j["c"][1:]
+    return any(a["t"] == "Str" and b["t"] == "Str" for a, b in zip(spec, spec[1:])) or \
+        any(c["t"] == "Str" and "}" in c["v"] for c in spec)
+
+
+def _n_spec_debug(ir):
+    def f(j):
+        if not _spec_debug(j):
+            return j
+        out = []
+        for c in j["c"][1:]:
+            if c["t"] == "Str":
+                c = dict(c, v=c["v"].replace("}", "_"))
+                if out and out[-1]["t"] == "Str":
+                    out[-1] = dict(out[-1], v=out[-1]["v"] + c["v"])
+                    continue
+            out.append(c)
+        return dict(j, c=j["c"][:1] + out)
+    return G.map_ir(ir, f)
+
+
 def _neg_zero_imag(j):
     return j["t"] == "Complex" and j["v"][1] == "-0.0"
 
@@ -215,12 +316,15 @@ def _n_zero_imag(ir):
 
 
 NORMALISERS = [
+    ("fspec-nested-debug-text", lambda ir: any(_spec_debug(j) for j, _, _ in G.walk(ir)), _n_spec_debug),
     ("fcomponent-multi-spec", lambda ir: "multi-spec" in G.features(ir), _n_multispec),
     ("bracket-string-leading-newline", lambda ir: "leading-newline" in G.features(ir), _n_leading_nl),
     ("fspec-brace-not-doubled", lambda ir: "spec-braces" in G.features(ir), _n_spec_braces),
     ("fspec-string-not-escaped", _has_spec_escape, _n_spec_escape),
-    ("dotted-sugar-all-dots-part", lambda ir: "dotted-dots-part" in G.features(ir), _n_dots_part),
+    ("dotted-sugar-not-a-dotted-identifier", lambda ir: any(_bad_dotted(j) for j, _, _ in G.walk(ir)), _n_dots_part),
     ("fcomponent-value-starts-with-brace", lambda ir: "fcomp-brace-value" in G.features(ir), _n_brace_value),
+    ("unquote-of-at-dotted-form", lambda ir: any(_at_dotted(j) for j, _, _ in G.walk(ir)), _n_at_dotted),
+    ("fstring-escaped-backslash-before-N-brace", _has_bs_n_brace, _n_bs_n_brace),
     ("complex-negative-zero-imag", lambda ir: any(_neg_zero_imag(j) for j, _, _ in G.walk(ir)), _n_zero_imag),
 ]
 
